@@ -232,6 +232,11 @@ func HeldMutexes() int {
 			n++
 		}
 	}
+	for _, v := range rwHeld {
+		if v != 0 {
+			n++
+		}
+	}
 	return n
 }
 
@@ -335,6 +340,7 @@ func RWMutexLock(m *sync.RWMutex) {
 		Stop("deadlock: Lock on a RWMutex that is held and never released")
 	}
 	rwHeld[m] = -1
+	LockEvent(m, true)
 }
 
 //verif:replace (*sync.RWMutex).Unlock
@@ -343,6 +349,7 @@ func RWMutexUnlock(m *sync.RWMutex) {
 		panic("sync: Unlock of unlocked RWMutex")
 	}
 	rwHeld[m] = 0
+	LockEvent(m, false)
 }
 
 //verif:replace (*sync.RWMutex).RLock
@@ -352,6 +359,7 @@ func RWMutexRLock(m *sync.RWMutex) {
 		Stop("deadlock: RLock on a RWMutex that is write-locked and never released")
 	}
 	rwHeld[m]++
+	LockEventShared(m, true)
 }
 
 //verif:replace (*sync.RWMutex).RUnlock
@@ -360,6 +368,7 @@ func RWMutexRUnlock(m *sync.RWMutex) {
 		panic("sync: RUnlock of unlocked RWMutex")
 	}
 	rwHeld[m]--
+	LockEventShared(m, false)
 }
 
 
